@@ -15,6 +15,9 @@ Step(ev) == /\ ev.out = "ok"
             /\ CASE ev.kind = "yw" -> /\ ev.resid_eps_log2 <= (IF ev.offset_class = 2 THEN 30 ELSE 20)
                                       /\ ev.intercept_dev_eps_log2 <= 10
                  [] ev.kind = "forecast_obs" -> ev.finite = TRUE /\ ev.shift_dev_log2 <= -20 /\ ev.conv_dev_log2 <= -20
+                 \* a fitted object forecasts from the history it is handed (another history of the training length included), exactly
+                 \* like an object that only holds the same coefficients and intercept (PredictSpec has no other argument)
+                 [] ev.kind = "forecast_history" -> ev.same = TRUE
 Next == l <= Len(Rec) /\ Step(Rec[l]) /\ l' = l + 1
 Spec == Init /\ [][Next]_l
 Accepted == LET d == TLCGet("stats").diameter IN
